@@ -375,13 +375,21 @@ ssize_t
 sts_cbc(Source *source, Sink *sink)
 {
     unsigned char buf;
+    int rc;
 
-    const int rc = source_get_octet(source, &buf);
+    /* Like the chunk API: zero, -EINTR and -EAGAIN mean "try again". */
+    do {
+        rc = source_get_octet(source, &buf);
+    } while (rc == 0 || rc == -EINTR || rc == -EAGAIN);
     if (rc < 0) {
         return (ssize_t)rc;
     }
 
-    return sink_put_octet(sink, buf);
+    do {
+        rc = sink_put_octet(sink, buf);
+    } while (rc == 0 || rc == -EINTR || rc == -EAGAIN);
+
+    return (ssize_t)rc;
 }
 
 ssize_t
